@@ -3,12 +3,30 @@
 //! `VecMap` is an association-list stand-in for `std::collections::HashMap` with the API
 //! subset this workspace uses. Symbolic-execution engines cannot execute hashbrown's
 //! probing/SipHash within reach; finite-map semantics are all the code relies on.
-//! Iteration order of a real `HashMap` is arbitrary: `INSERT_POS`, when set by a harness,
+//! Iteration order of a real `HashMap` is arbitrary: `ORDER_SLOTS`, when enabled by a harness,
 //! chooses where a fresh key lands so that every iteration order is reachable.
 use std::borrow::Borrow;
 
-/// hook: given the new length, return the slot (< len) the fresh entry is swapped into
-pub static mut INSERT_POS: Option<fn(usize) -> usize> = None;
+/// Iteration-order hook.  When `ORDER_ENABLED`, a fresh key is swapped into slot
+/// `ORDER_SLOTS[n] % len` (n = number of insertions so far), so a harness that fills
+/// `ORDER_SLOTS` with arbitrary values reaches every iteration order.  Plain data on
+/// purpose: a function-pointer hook makes symbolic-execution engines consider every
+/// function of matching signature at each call.
+pub static mut ORDER_ENABLED: bool = false;
+pub static mut ORDER_SLOTS: [usize; 8] = [0; 8];
+pub static mut ORDER_NEXT: usize = 0;
+
+#[allow(static_mut_refs)]
+fn order_slot(len: usize) -> Option<usize> {
+  unsafe {
+    if !ORDER_ENABLED || len == 0 {
+      return None;
+    }
+    let j = ORDER_SLOTS[ORDER_NEXT % 8] % len;
+    ORDER_NEXT += 1;
+    Some(j)
+  }
+}
 
 #[derive(Clone, Debug)]
 pub struct VecMap<K, V> {
@@ -50,12 +68,8 @@ impl<K: Eq, V> VecMap<K, V> {
     }
     self.items.push((k, v));
     let len = self.items.len();
-    #[allow(static_mut_refs)]
-    if let Some(f) = unsafe { INSERT_POS } {
-      let j = f(len);
-      if j < len {
-        self.items.swap(j, len - 1);
-      }
+    if let Some(j) = order_slot(len) {
+      self.items.swap(j, len - 1);
     }
     None
   }
@@ -216,12 +230,8 @@ impl<T: Eq> VecSet<T> {
     }
     self.items.push(v);
     let len = self.items.len();
-    #[allow(static_mut_refs)]
-    if let Some(f) = unsafe { INSERT_POS } {
-      let j = f(len);
-      if j < len {
-        self.items.swap(j, len - 1);
-      }
+    if let Some(j) = order_slot(len) {
+      self.items.swap(j, len - 1);
     }
     true
   }
